@@ -580,6 +580,7 @@ def tr_loop(apply_stmt, rest, env):
 
     # add = operator.add; mem = [0.] * size; s_h = size - hop; for blk in xmap(iter, blk_sig): …; for el in mem[hop:]: yield el
     e = env.fork()
+    outer = {}
     pre = []
     state = init = None
     i = 0
@@ -600,6 +601,7 @@ def tr_loop(apply_stmt, rest, env):
             elif tx == "int":
                 pre.append("  let %s : Int := %s" % (t, x))
                 e[t] = (t, "int")
+                outer[t] = ("(%s)" % x, "int")      # outside the step function the constant is written out
             else:
                 fail("overlap-add loop: `%s` is a %s" % (t, tx), s)
         i += 1
@@ -625,15 +627,15 @@ def tr_loop(apply_stmt, rest, env):
         if y is not None:
             if emit is not None:
                 fail("overlap-add loop: two yield loops in the body", s)
-            emit, te, _ = expr(y, e)
+            emit, te, _ = expr(y, e.fork(**outer))
             continue
         if emit is not None:
             fail("overlap-add loop: statement after the yield loop", s)
         if isinstance(s, ast.If):
             if guard is not None or s.orelse or len(s.body) != 1 or not isinstance(s.test, ast.Compare) or len(s.test.ops) != 1:
                 fail("overlap-add loop: expected one `if <comparison>: raise …`", s)
-            a, ta, _ = expr(s.test.left, e)
-            b, tb, _ = expr(s.test.comparators[0], e)
+            a, ta, _ = expr(s.test.left, e.fork(**outer))
+            b, tb, _ = expr(s.test.comparators[0], e.fork(**outer))
             if ta != "nat" or tb != "nat":
                 fail("overlap-add loop: comparison of %s and %s" % (ta, tb), s)
             guard = ("%s %s %s" % (a, cmpop(s.test.ops[0], s), b), raised(s.body[0], ERRS))
@@ -674,7 +676,7 @@ def tr_loop(apply_stmt, rest, env):
     y = is_yield_loop(flush)
     if y is None:
         fail("overlap-add loop: the statement after the loop is not `for el in …: yield el`", flush)
-    tail, _, _ = expr(y, e)
+    tail, _, _ = expr(y, e.fork(**outer))
     if init != "List.replicate size 0":
         pass
     L = ["/-- one iteration of `for %s in %s`: the statements before the size check -/" % (blk, ast.unparse(loop.iter)),
